@@ -19,9 +19,21 @@
     in travel direction, [egress_if c s] that interface's record.
 
     All theorems hold for every MAC function (also a partial one), key, time,
-    configuration and packet. *)
+    configuration and packet.
+
+    SCOPE (audit follow-up).  [run_history] / [process_at] is the SCION-path branch of
+    [processPkt] (EPIC packets go through the same [process()]).  The one-hop branch
+    ([processOHP]) never calls [validateEgressUp]: a one-hop packet leaves through its
+    first hop's egress interface whatever BFD says.  That contradicts the property text
+    ("forwards no packet over that link") and is the OPEN KNOWN FINDING
+    C15/ohp-ignores-link-state: see the last section ([C15_ohp_ignores_link_state],
+    [C15_never_forwarded_statement_refuted], and the [..._except_known] versions of the main
+    theorems over the union of both branches, the one-hop branch excluded by name).
+    Packets the router ORIGINATES are outside the property as read here: an SCMP reply goes
+    back over the link the request arrived on with no IsUp test ([C15_reply_over_ingress_link]),
+    and the router's own BFD packets necessarily travel over links that are down. *)
 From Coq Require Import List NArith Bool.
-From Scion Require Import Lib.Check Model.BFD Model.Router Model.RouterBfd
+From Scion Require Import Lib.Check Model.BFD Model.Router Model.RouterOHP Model.RouterBfd
      Proofs.BFD Proofs.Router Proofs.RouterBfd.
 Import ListNotations.
 Import Scion.Model.Router.Router.
@@ -209,13 +221,15 @@ Qed.
 Print Assumptions C15_frame.
 
 (** The oracle that the correspondence check evaluates on the implementation's
-    observations ([c15_ok], folded over a history by [hist_check]) holds on the model's own
-    observations for every configuration, MAC table, packet pool, set of sessions and history. *)
-Theorem C15_oracle_holds_on_model : forall c ss macs pkts evs,
+    observations ([c15_ok] / [fwd_ok], folded over a history by [hist_check]) holds on the model's
+    own observations for every configuration, MAC table, packet pool, set of sessions and every
+    history without one-hop data packets (known finding C15/ohp-ignores-link-state, below). *)
+Theorem C15_oracle_holds_on_model_except_known : forall c ss macs pkts evs,
+  no_hohp evs = true ->
   snd (hist_check c macs pkts (init_links ss)
                   (with_model_obs c macs pkts (init_links ss) evs)) = true.
-Proof. intros. apply hist_oracle_model. Qed.
-Print Assumptions C15_oracle_holds_on_model.
+Proof. intros. now apply hist_oracle_model_except_ohp. Qed.
+Print Assumptions C15_oracle_holds_on_model_except_known.
 
 (** Non-vacuity: a router with an external child link (interface 2, BFD) and a child link
     owned by sibling router 1 (interface 3, BFD); a transit packet entering through the
@@ -256,3 +270,101 @@ Proof.
   split; [eexists; split; vm_compute; reflexivity|].
   vm_compute. repeat split; reflexivity.
 Qed.
+
+(** * Audit follow-up: one-hop packets and router-originated replies *)
+
+(** One-hop processing does not depend on any session: for every session state the result is
+    that of [RouterOHP.process_ohp] on the plain configuration (which has no up check). *)
+Theorem C15_ohp_any_link_state : forall macq c ls ing p,
+  process_ohp_at macq c ls ing p = RouterOHP.process_ohp macq c ing p.
+Proof. exact process_ohp_cfg_at. Qed.
+Print Assumptions C15_ohp_any_link_state.
+
+Definition ex_ohp : pkt :=
+  mkPkt 300 100 0 0 [10; 1; 1; 1] [10; 2; 2; 2] 8 8 (Some 5000) 0 0 0 0 0 0
+        [mkInfo false true 7 1000 0]
+        [mkHop false false 63 0 2 [1; 2; 3; 4; 5; 6] 0; mkHop false false 0 0 0 [0; 0; 0; 0; 0; 0] 0].
+
+(** KNOWN FINDING C15/ohp-ignores-link-state, stated positively: there are a configuration, a
+    link whose BFD session is not up, and a one-hop packet that is forwarded over that link. *)
+Theorem C15_ohp_ignores_link_state :
+  exists macq c ls ing p f e out,
+    get_if c e = Some f /\ link_up ls (if_link f) = false /\
+    if_up (iface_of (cfg_at c ls) e) = false /\
+    process_ohp_at macq c ls ing p = Forward e out None.
+Proof.
+  exists ex_mac, ex_cfg, ex_links, InInt, ex_ohp.
+  eexists. exists 2. eexists. vm_compute. repeat split; reflexivity.
+Qed.
+Print Assumptions C15_ohp_ignores_link_state.
+
+(** The property's first clause over BOTH forwarding branches of [processPkt] ... *)
+Definition C15_never_forwarded_statement : Prop :=
+  forall macq c ls0 pre ing d post e out,
+  nth_error (run_history2 macq c ls0 (pre ++ Ev2Data ing d :: post)) (count_data2 pre)
+    = Some (Forward e out None) ->
+  exists f, get_if c e = Some f /\ e <> 0 /\ link_up (links_after2 ls0 pre) (if_link f) = true.
+
+(** ... is false for scion as it is (the faithful model carries the deviation) ... *)
+Theorem C15_never_forwarded_statement_refuted : ~ C15_never_forwarded_statement.
+Proof.
+  intros H.
+  assert (E : exists out,
+             nth_error (run_history2 ex_mac ex_cfg ex_links ([] ++ Ev2Data InInt (DOhp ex_ohp) :: []))
+                       (count_data2 []) = Some (Forward 2 out None)).
+  { vm_compute. eexists. reflexivity. }
+  destruct E as [out E]. destruct (H _ _ _ _ _ _ _ _ _ E) as (f & G & _ & U).
+  vm_compute in G. injection G as <-. vm_compute in U. discriminate.
+Qed.
+Print Assumptions C15_never_forwarded_statement_refuted.
+
+(** ... and holds for every data packet that is not a one-hop packet. *)
+Theorem C15_never_forwarded_over_down_link_except_known :
+  forall macq c ls0 pre ing d post e out,
+  is_ohp d = false ->
+  nth_error (run_history2 macq c ls0 (pre ++ Ev2Data ing d :: post)) (count_data2 pre)
+    = Some (Forward e out None) ->
+  exists f, get_if c e = Some f /\ e <> 0 /\ link_up (links_after2 ls0 pre) (if_link f) = true.
+Proof.
+  intros macq c ls0 pre ing d post e out K H. rewrite run_history2_nth in H. injection H as H.
+  destruct d as [now p|p]; [|discriminate]. cbn [process_any] in H.
+  eapply process_at_forward_up; eassumption.
+Qed.
+Print Assumptions C15_never_forwarded_over_down_link_except_known.
+
+(** Second clause over the union: a SCION-path packet that reaches the up check while its
+    egress link is down is answered by the SCMP request, in any history that may also contain
+    one-hop packets. *)
+Theorem C15_history_except_known : forall macq c ls0 pre now ing p post s,
+  up_check_state macq c now ing p = Some s ->
+  link_up (links_after2 ls0 pre) (if_link (egress_if c s)) = false ->
+  nth_error (run_history2 macq c ls0 (pre ++ Ev2Data ing (DScion now p) :: post)) (count_data2 pre) =
+    Some (SlowPath (SpScmp (if scope_eqb (if_scope (egress_if c s)) External
+                            then ScmpExternalInterfaceDown else ScmpInternalConnectivityDown) 0 0)
+                   (s_eg s) (s_p s)).
+Proof.
+  intros macq c ls0 pre now ing p post s U D. rewrite run_history2_nth. cbn [process_any].
+  rewrite (process_at_down _ _ _ _ _ _ _ U D). reflexivity.
+Qed.
+Print Assumptions C15_history_except_known.
+
+(** The oracle of the check is refuted on the model by a history with a one-hop packet
+    (verdict 2 of the correspondence check, tagged ohp-ignores-link-state). *)
+Theorem C15_oracle_holds_on_model_refuted : exists c ss macs pkts evs,
+  snd (hist_check c macs pkts (init_links ss)
+                  (with_model_obs c macs pkts (init_links ss) evs)) = false.
+Proof.
+  exists ex_cfg, [(2, 0)], [macc 7 1000 63 0 2 1108152157446], [ex_ohp], [HOhp InInt 0 Discard None].
+  vm_compute. reflexivity.
+Qed.
+Print Assumptions C15_oracle_holds_on_model_refuted.
+
+(** Router-originated replies: whatever the session states, the SCMP reply to a packet that
+    the fast path hands to the slow path goes back over the link the packet arrived on; the
+    fast-path decision that leads there does not look at that link's session either (a packet
+    rejected before the up check: [C15_frame]). *)
+Theorem C15_reply_over_ingress_link : forall macq c ls now ing p ty code ptr e out,
+  process_at macq c ls now ing p = SlowPath (SpScmp ty code ptr) e out ->
+  reply_link ing (process_at macq c ls now ing p) = Some (ing_link ing).
+Proof. intros * H. rewrite H. reflexivity. Qed.
+Print Assumptions C15_reply_over_ingress_link.
